@@ -224,6 +224,10 @@ type Options struct {
 	AttachOpts    any
 	// Default handler marker for requests the mux does not route to the engine.
 	OnConnection func(s engine.Socket)
+	// PreHeaders are set on the response by an outer handler before the engine is entered (an
+	// application that wraps the engine, e.g. one that has already decided on Vary or a
+	// security header).
+	PreHeaders http.Header
 }
 
 // World is one engine server behind a real net/http server on an in-memory listener.
@@ -236,6 +240,7 @@ type World struct {
 	L    *fakenet.Listener
 	Gate *Gate
 
+	preHeaders  http.Header
 	Sockets     map[string]engine.Socket
 	SockOrder   []string
 	Reqs        []*Req
@@ -291,7 +296,7 @@ func DataString(r io.Reader) (string, bool) {
 
 // NewWorld must be called inside a bubble.
 func NewWorld(o Options) *World {
-	w := &World{Tap: &Tap{start: time.Now()}, Sockets: map[string]engine.Socket{}, Gate: NewGate(), onConn: o.OnConnection}
+	w := &World{Tap: &Tap{start: time.Now()}, Sockets: map[string]engine.Socket{}, Gate: NewGate(), onConn: o.OnConnection, preHeaders: o.PreHeaders}
 	var so any
 	if o.Server != nil {
 		so = o.Server
@@ -334,6 +339,11 @@ func (w *World) wrap(h http.Handler) http.Handler {
 			req.ReturnSeq = seq
 			w.mu.Unlock()
 		}()
+		for k, vs := range w.preHeaders {
+			for _, v := range vs {
+				rw.Header().Add(k, v)
+			}
+		}
 		h.ServeHTTP(&recWriter{ResponseWriter: rw, w: w, req: req}, r)
 	})
 }
